@@ -486,6 +486,10 @@ def summarize(pid, tier, seed, mod, results, wall, verbose):
               pid, tier, total.paths, total.checks, total.checks_trivial, replayed, total.q_sat, total.q_unsat,
               total.q_unknown, total.solver_s, total.inconclusive, total.capped, known_hits, new_viol,
               len(errors), wall))
+    if not exhaustive and not errors:
+        print('INCOMPLETE: %s %s explored only part of the stated bound (work items capped by the time budget: %d, '
+              'inconclusive paths: %d, solver unknown: %d); the evidence records exhaustive=false' % (
+                  pid, tier, total.capped, total.inconclusive, total.q_unknown))
     if errors:
         for e in errors[:12]:
             print('HARNESS-ERROR: ' + e.replace('\n', '\n    '), file=sys.stderr)
